@@ -284,6 +284,12 @@ func (fr *Frame) reachCheck(st *State, ins ssa.Instruction) {
 	if txt == "" {
 		return
 	}
+	if syn := fr.fn.Syntax(); syn != nil && fr.fn.Parent() != nil {
+		// inside a closure only the statements of its own body count
+		if sp, ok := x.w.stmtPos[pos]; ok && (sp < syn.Pos() || sp >= syn.End()) {
+			return
+		}
+	}
 	for _, rc := range fr.contract.Reach {
 		if rc.Stmt != txt {
 			// "prefix..." matches statements whose text starts with prefix
